@@ -167,6 +167,62 @@ def _brief(o):
     return s if len(s) < 700 else s[:700] + "..."
 
 
+def _variant_ok(case, ast2, tape, rname, tight=False):
+    """Does a repaired variant of the case (same context, same layout tape, same receiver) meet ITS expectation?
+    Used only to decide which defect class a failure belongs to."""
+    case2 = dict(case, ast=ast2)
+    invalid = tg.invalid_reasons(ast2)
+    r = tg.render_args(ast2, tape, tight_spread_literal=tight)
+    head, endtag = HEADS[rname]
+    src = "{% " + head + r["text"] + "%}" + ("" if r["slash"] else "{% " + endtag + " %}")
+    got = run_source(src, case["ctx"])
+    if invalid:
+        return got[0] == "compile-TSE"
+    return _matches(expected_outcome(case2), got)
+
+
+CLASS_BUCKET = {
+    "D1": "D1:ws-spread-literal",
+    "D3": "D3:top-level-spread-with-filter",
+    "D4": "D4:string-ends-in-escaped-backslash",
+}
+CLASS_HINT = {
+    "D1": "passes without the whitespace between `*`/`**` and the literal list/dict",
+    "D3": "passes without the filter on the top-level `...` spread",
+    "D4": "passes once the string no longer ends in an escaped backslash",
+}
+
+
+def _defect_class(case, ast, tape, rname, got, notes, d3, d4):
+    """Which known defect class explains this failing (layout, receiver)?  A class applies when its structural
+    predicate holds AND the case repaired for that class (same context / tape / receiver) meets its own
+    expectation; if several predicates hold and only the jointly repaired case passes, the first one is named."""
+    cands = []
+    if d4:
+        cands.append("D4")
+    if d3:
+        cands.append("D3")
+    if got[0] == "compile-TSE" and "ws_between_spread_and_literal" in notes:
+        cands.append("D1")
+    if not cands:
+        return None
+
+    def repaired(classes):
+        a = ast
+        if "D4" in classes:
+            a = tg.with_padded_backslash_strings(a)
+        if "D3" in classes:
+            a = tg.without_top_spread_filters(a)
+        return _variant_ok(case, a, tape, rname, tight="D1" in classes)
+
+    for c in cands:
+        if repaired([c]):
+            return c, CLASS_HINT[c]
+    if len(cands) > 1 and repaired(cands):
+        return cands[0], "together with %s: passes only when all of them are avoided" % "+".join(cands[1:])
+    return None
+
+
 def check_case(case):
     """-> (general failures, predicate-class failures, info). Each failure is (message, bucket)."""
     _setup()
@@ -207,8 +263,9 @@ def check_case(case):
             if got[0] == "compile-exc" and got[1] == "StopIteration" and rname in COMPONENT_PATH and tg.split_contents_breaks(contents[(li, rname)]):
                 special.append(("D2 %s: %r raised StopIteration from split_contents" % (rname, src), "D2:split-contents-translation"))
                 continue
-            if d4:
-                special.append(("D4 %s: documented-invalid %r -> %s" % (rname, src, _brief(got)), "D4:string-ends-in-escaped-backslash"))
+            dc = _defect_class(case, ast, tapes[li], rname, got, r["notes"], d3, d4)
+            if dc:
+                special.append(("%s %s: documented-invalid %r -> %s (%s)" % (dc[0], rname, src, _brief(got), dc[1]), CLASS_BUCKET[dc[0]]))
                 continue
             general.append(
                 (
@@ -220,26 +277,15 @@ def check_case(case):
         if _matches(exp, got):
             continue
         # --- classify: known defect classes by structural predicate of the case / layout ------------
-        if d4:
-            special.append(("D4 %s: %r -> %s, expected %s" % (rname, src, _brief(got), _brief(exp)), "D4:string-ends-in-escaped-backslash"))
-            continue
-        if d3:
-            special.append(("D3 %s: %r -> %s, expected %s" % (rname, src, _brief(got), _brief(exp)), "D3:top-level-spread-with-filter"))
-            continue
         if got[0] == "compile-exc" and got[1] == "StopIteration" and rname in COMPONENT_PATH and tg.split_contents_breaks(contents[(li, rname)]):
             special.append(
                 ("D2 %s: %r raised StopIteration from split_contents; node receiver: %s" % (rname, src, _brief(results[(li, "node")][1])), "D2:split-contents-translation")
             )
             continue
-        if got[0] == "compile-TSE" and "ws_between_spread_and_literal" in r["notes"]:
-            # same layout, but nothing between `*`/`**` and the literal container
-            r2 = tg.render_args(ast, tapes[li], tight_spread_literal=True)
-            head, endtag = HEADS[rname]
-            src2 = "{% " + head + r2["text"] + "%}" + ("" if r2["slash"] else "{% " + endtag + " %}")
-            got2 = run_source(src2, case["ctx"])
-            if _matches(exp, got2):
-                special.append(("D1 %s: %r -> TemplateSyntaxError(%s); accepted without the whitespace after `*`/`**`: %r" % (rname, src, got[1], src2), "D1:ws-spread-literal"))
-                continue
+        dc = _defect_class(case, ast, tapes[li], rname, got, r["notes"], d3, d4)
+        if dc:
+            special.append(("%s %s: %r -> %s, expected %s (%s)" % (dc[0], rname, src, _brief(got), _brief(exp), dc[1]), CLASS_BUCKET[dc[0]]))
+            continue
         kind = got[0] if got[0] == "ok" else "%s:%s" % (got[0], got[2] if len(got) > 2 and got[0].endswith("exc") else "")
         if _matches(exp, results[(0, rname)][1]):
             bucket = "layout-variance:%s:%s" % (rname if rname == "node" else "component-path", kind)
